@@ -2,7 +2,7 @@
    Per-thread stores plus one process-wide store; a context manager is an (enter, exit) pair;
    programs are well-nested trees of scopes with observations, raises and handlers.
    The thread-local scope functions come from Gen/ScopeDefs.v (regenerated from the source);
-   class detouring is written by hand here and tied to the code by the correspondence check.  Definitions only. *)
+   nothing is written by hand but the specifications the generated loops are proved against.  Definitions only. *)
 From Coq Require Import ZArith List Bool PeanoNat.
 Import ListNotations.
 From PG Require Import Common.Tr Model.ScopesBase Gen.ScopeDefs.
@@ -43,7 +43,9 @@ Definition contextual_merge (cur vars : dict) : dict :=
                         end in
                dict_set (fst kv) v acc) vars cur.
 
-(* class_detour.py: _DetourContext.enter_scope / leave_scope *)
+(* class_detour.py: _DetourContext.enter_scope / leave_scope are generated (Gen.detour_scope_enter / _exit).  The
+   documented rule as a specification: a source class already detoured by an enclosing scope keeps its outer
+   destination; a new destination that is itself detoured there is routed through; later pairs override earlier ones. *)
 Definition detour_resolve (cur : dict) (m : Z * atom) : option (Z * atom) :=
   if dict_has (fst m) cur then None
   else match snd m with
@@ -52,12 +54,8 @@ Definition detour_resolve (cur : dict) (m : Z * atom) : option (Z * atom) :=
        end.
 Fixpoint filter_map {A B} (f : A -> option B) (l : list A) : list B :=
   match l with [] => [] | x :: r => match f x with Some y => y :: filter_map f r | None => filter_map f r end end.
-Definition detour_enter (maps : val) (l : store) : option (store * list val) :=
-  match tl_peek k_detour v_empty_dict l, maps with
-  | VD cur, VD ms => Some (tl_push k_detour (VD (dict_update cur (filter_map (detour_resolve cur) ms))) l, [])
-  | _, _ => None      (* detour() raises TypeError on an invalid mapping before enter_scope *)
-  end.
-Definition detour_exit (l : store) : store := tl_pop k_detour l.
+Definition detour_spec (cur : dict) (maps : val) : dict :=
+  match maps with VD ms => dict_update cur (filter_map (detour_resolve cur) ms) | _ => cur end.
 
 (* managers generated over both stores *)
 Definition lift2_enter (f : store -> store -> option (store * store * list val)) (s : state) : option (state * list val) :=
@@ -88,7 +86,7 @@ Definition cm_enter (c : cm) (a : val) (s : state) : option (state * list val) :
   | CViewOpts => lift_enter (view_options_enter a) s
   | CCtx => lift_enter (context_enter a) s
   | CContextual => lift_enter (contextual_scope_enter a) s
-  | CDetour | CApplyWrappers => lift_enter (detour_enter a) s
+  | CDetour | CApplyWrappers => lift_enter (detour_scope_enter a) s
   | CTimeit => lift_enter (timeit_enter a) s
   | CDynEval => dyn_enter v_true a s
   | CDynEvalGlobal => dyn_enter v_false a s
@@ -107,7 +105,7 @@ Definition cm_exit (c : cm) (a : val) (sv : list val) (s : state) : state :=
   | CViewOpts => lift_exit (view_options_exit a sv) s
   | CCtx => lift_exit (context_exit a sv) s
   | CContextual => lift_exit (contextual_scope_exit a sv) s
-  | CDetour | CApplyWrappers => lift_exit detour_exit s
+  | CDetour | CApplyWrappers => lift_exit (detour_scope_exit a sv) s
   | CTimeit => lift_exit (timeit_exit a sv) s
   | CDynEval => dyn_exit v_true a sv s
   | CDynEvalGlobal => dyn_exit v_false a sv s
@@ -129,7 +127,7 @@ Definition observe (g : getter) (s : state) : val :=
   | GViewOpts => tl_peek k_view_options v_empty_dict l
   | GCtx => get_context l
   | GContextual => tl_get k_contextual v_empty_dict l
-  | GDetour => tl_peek k_detour v_empty_dict l
+  | GDetour => current_mappings l
   | GTimeit => tl_get k_timing v_none l
   | GDynEval => get_dynamic_evaluate_fn l (snd s)
   | GLoadTypes => tl_peek g_ondemand_types v_empty_dict (snd s)
